@@ -172,10 +172,12 @@ struct Rec<'i> {
     nb: i64,
     structured: bool,
     over: u64,
+    /// a hash computed INSIDE a callback is not the double SHA-256 of the right bytes (C10)
+    cb_bad_hash: bool,
 }
 impl<'i> Rec<'i> {
     fn new(base: &'i [u8], brk: i64, structured: bool) -> Self {
-        Rec { base, toks: vec![], evs: vec![], brk, nb: 0, structured, over: 0 }
+        Rec { base, toks: vec![], evs: vec![], brk, nb: 0, structured, over: 0, cb_bad_hash: false }
     }
     /// callbacks beyond 3 * input length + 64 are counted, not stored (C01 bounds them by a small multiple of
     /// the input length: a runaway implementation must not exhaust memory before it can be reported), and the
@@ -213,11 +215,26 @@ impl<'i> Rec<'i> {
             s.push_str(t);
         }
         write!(s, " nev={}", self.toks.len() as u64 + self.over).unwrap();
+        if self.cb_bad_hash {
+            s.push_str(" x_cbhash=0");
+        }
         s
     }
 }
 impl<'i> Visitor for Rec<'i> {
     fn visit_block_header(&mut self, h: &bsl::BlockHeader) -> ControlFlow<()> {
+        // the header as the visitor sees it: its hash (both back ends) must be the double SHA-256 of the 80 bytes
+        // at its position, computed here by rust-bitcoin's hash function from the raw input
+        {
+            use bitcoin::hashes::sha256d;
+            let view: &[u8] = h.as_ref();
+            let n = view.len().min(80);
+            let want = sha256d::Hash::hash(&view[..n]).to_byte_array();
+            let ok = guard(false, || h.block_hash().to_byte_array() == want && h.block_hash_sha2()[..] == want[..] && h.block_hash_preimage().len() == 80);
+            if !ok {
+                self.cb_bad_hash = true;
+            }
+        }
         self.push_tok(format!(
             "0,{},{},{},{},{},{}",
             ws(self.base, h.as_ref()),
